@@ -20,6 +20,12 @@ def specs(ck, n, prop, configs):
         {"name": f"vfsrc_{prop.lower()}_pin_typing_{ck.seed}", "seed": f"{prop}:pin:3", "style": "aliased-module", "configs": configs, "cli": False, "force": ["typing", "settings"]},
         {"name": f"vfsrc_{prop.lower()}_pin_star_{ck.seed}", "seed": f"{prop}:pin:4", "style": "mixed", "configs": configs, "cli": False},
     ]
+    verbose = ("import typing\n\n\ndef total(values: typing.Optional[typing.Union[typing.List[int], typing.Tuple[int, ...]]] = None, "
+               "start: typing.Optional[typing.Union[int, float, complex]] = 0) -> typing.Optional[typing.Union[int, float, complex]]:\n"
+               "    return sum(values or []) + start\n\n\ndef label(n: typing.Union[int, str, bytes, None] = 1) -> typing.Union[str, bytes, None]:\n"
+               "    return str(n)\n\n\ndef workload():\n    return [total([1, 2], 1), total([3]), label(2), label()]\n")
+    pins.append({"name": f"vfsrc_{prop.lower()}_pin_verbose_{ck.seed}", "seed": f"{prop}:pin:5", "style": "plain-import", "configs": configs[:2], "cli": True,
+                 "cli_ignore": True, "literal_source": verbose})
     return pins + out
 
 
@@ -35,6 +41,7 @@ def run(ck):
     ck.need("second_applications", 150)
     ck.need("results_executed", 150)
     ck.need("cli_applies", 5)
+    ck.need("cli_results_shorter_than_source", 1, "no CLI apply whose result is shorter than the source")
     for f in ("alias-annotations", "partial-annotations", "decorated", "nested-def", "docstring", "future-import", "typing-import", "module-code", "nested-class"):
         ck.counters["feature:" + f] = 1 if f in ck.sets.get("source_features", ()) else 0
         ck.need("feature:" + f, 1, "source feature never generated")
